@@ -74,7 +74,7 @@ func cidGenScenario(seed uint64, tier string) KScenario {
 	if r.P(0.07) {
 		sc.PeerLen = 0
 	}
-	sc.OwnLen = r.Pick(4, 4, 8, 12, 20)
+	sc.OwnLen = r.Pick(4, 4, 8, 12, 20, 2) // 2: IDs drawn from a small alphabet, so that fresh IDs collide with active ones
 	if r.P(0.07) {
 		sc.OwnLen = 0
 	}
@@ -874,6 +874,10 @@ type cidOwnGen struct {
 
 func (g *cidOwnGen) GenerateConnectionID() (ConnectionID, error) {
 	b := g.rng.Bytes(g.n)
+	if g.n < 4 && g.n > 0 {
+		b = make([]byte, g.n)
+		b[0] = byte(g.rng.N(128))
+	}
 	if g.n >= 4 {
 		g.ctr++
 		b[0], b[1], b[2] = byte(g.ctr>>8), byte(g.ctr), 0x0A
@@ -996,6 +1000,15 @@ func (x *cidGen) active() []uint64 {
 	return out
 }
 
+func (x *cidGen) activeOwn(id protocol.ConnectionID) bool {
+	for seq, c := range x.own {
+		if c == id && !x.ownRetired[seq] {
+			return true
+		}
+	}
+	return false
+}
+
 // absorb consumes NEW_CONNECTION_ID frames queued by the generator.
 func (x *cidGen) absorb(what string) int {
 	n := 0
@@ -1013,8 +1026,11 @@ func (x *cidGen) absorb(what string) int {
 			x.res.Fail("issued sequence numbers not consecutive", "seq %d after %d during %s", f.SequenceNumber, x.highest, what)
 		case f.ConnectionID.Len() != x.sc.OwnLen:
 			x.res.Fail("issued connection ID has the wrong length", "%d", f.ConnectionID.Len())
-		case x.everSeen[f.ConnectionID]:
+		case x.everSeen[f.ConnectionID] && x.sc.OwnLen >= 4:
 			x.res.Fail("connection ID issued twice", "%s", f.ConnectionID)
+		case x.activeOwn(f.ConnectionID):
+			// (short IDs: a random generator cannot avoid repeating an ID retired long ago, but the ones in use are known)
+			x.res.Fail("connection ID issued although it is still active under another sequence number", "%s as seq %d", f.ConnectionID, f.SequenceNumber)
 		case f.StatelessResetToken != x.sr.GetStatelessResetToken(f.ConnectionID):
 			x.res.Fail("issued stateless-reset token is not the token of the issued connection ID", "seq %d", f.SequenceNumber)
 		}
@@ -1388,8 +1404,8 @@ func cidRunScenario(t *testing.T, ksc KScenario, res *KResult) {
 	if sc.PeerLen != 0 && sc.PeerLen < 4 {
 		sc.PeerLen = 4
 	}
-	if sc.OwnLen != 0 && sc.OwnLen < 4 {
-		sc.OwnLen = 4
+	if sc.OwnLen != 0 && sc.OwnLen < 2 {
+		sc.OwnLen = 2
 	}
 	if sc.PeerLen > 20 {
 		sc.PeerLen = 20
